@@ -497,7 +497,25 @@ func c07Conn(r *fw.R, beh string, role Role, p wire.Params, seed uint64, success
 	}
 
 	switch beh {
+	case "wsjson-invalid":
+		// documents that do not decode: wsjson.Read fails (that is its job) and the connection is closed; what
+		// the failed call did with its pooled buffer shows on the connections that decode afterwards
+		doc := []string{`{"tag":`, `{"tag":5}`, `[1,2`, `"` + strings.Repeat("x", 3000), `{"tag":"a"}{"tag":"b"}`, ``}[rng.Intn(6)]
+		peer.Send(wire.Data(wire.OpText, true, []byte(doc)))
+		var v struct{ Tag string }
+		if err := wsjson.Read(ctx, c, &v); err == nil {
+			r.Count("wsjson_invalid_documents_accepted_not_judged_here", 1)
+		} else {
+			r.Count("wsjson_reads_that_failed_to_decode", 1)
+		}
+		outcome = "decode-error"
+		return
 	case "wsjson":
+		if !successor && seed%2 == 0 {
+			for j := 0; j < 2; j++ {
+				c07Conn(r, "wsjson-invalid", role, p, seed+uint64(j)+300, true)
+			}
+		}
 		if !successor {
 			// two more connections read JSON at the same time, so that decodes overlap with other reads
 			var swg sync.WaitGroup
